@@ -178,6 +178,8 @@ def src_limits():
     out.append(("count:comments-and-blanks", "Feature: f\n  Scenario: s\n" + "".join(("  # c%d\n" % i) if i % 2 else "\n" for i in range(N)) + "    Given x\n" + "".join(f"  # d{i}\n" for i in range(N)), "en"))
     out.append(("count:table-rows", "Feature: f\n  Scenario: s\n    Given x\n" + "".join(f"      | {i} | {i % 7} |\n" for i in range(N)), "en"))
     out.append(("count:scenarios-with-tags", "@f\nFeature: f\n" + "".join(f"  @s{i}\n  Scenario: s{i}\n    Given x\n" for i in range(400)), "en"))
+    out.append(("count:escapes-in-cell", "Feature: f\n  Scenario Outline: s\n    Given x\n      | " + "\\n" * 40 + " | " + "\\|" * 40 + " | " + "\\\\" * 40 + " | " + "a\\nb\\|c\\\\" * 40 + " |\n"
+                "    Examples:\n      | h" + "\\|" * 70 + " |\n      | " + "\\\\n" * 35 + " |\n", "en"))
     out.append(("count:errors", "Feature: f\n" + "".join(f"junk {i}\n" for i in range(N)), "en"))
     # documents that leave a matcher in every non-initial state, each followed by ordinary ones (for re-use passes)
     for k, s in enumerate(["Feature: q\n  Scenario: s\n    Given x\n      \"\"\"\n      open\n", "Feature: ok\n  Scenario: s\n    Given x\n      ```\n      c\n      ```\n    And y\n      \"\"\"\n      d\n      \"\"\"\n",
@@ -518,3 +520,35 @@ def many_uses_pass(rep: Reporter, n: int, label: str = "many-uses") -> None:
                                                    "fresh": str(fresh)[:300], "used": str(used)[:300]})
             break
     rep.traces += n
+
+
+def ast_variants_pass(rep: Reporter, sources, label: str = "ast-variants") -> None:
+    """Compiler.compile on ASTs as parsed, after JSON / pickle round trips, and with scenario / rule children in other orders: Trace_Compile.tla."""
+    import astlevel as A
+    items = A.record(sources, known_finding_input)
+    v, res = A.validate(items)
+    rep.add_tlc("Trace_Compile", res, f"{len(items)} executions of Compiler.compile on parsed, round-tripped and re-ordered ASTs: recorded pickles = operational compiler, declarative predicates C06-C10")
+    rep.traces += len(items)
+    pred = {"c06": "C06", "c07": "C07", "c08": "C08", "c09": "C09", "c10": "C10"}
+    for tid, m in v.items():
+        it = items[tid - 1]
+        rep.case((label, it["name"]))
+        own: set[str] = set()
+        what = []
+        if it["exc"]:
+            own |= {"C01", "C06", "C07", "C08", "C09", "C10"}
+            what.append("compile raised " + it["exc"])
+        else:
+            if not m["operational"]:
+                own |= AT.owners_pickles(m["spec"][0], it["pickles"])
+                what.append("pickles differ from the operational compiler")
+            if not m["counter"]:
+                own |= {"C11"}
+                what.append("id counter after compile")
+            for k, p in pred.items():
+                if not m[k]:
+                    own |= {p}
+                    what.append("predicate " + k)
+        if rep.prop in own:
+            rep.violation({"kind": "ast-variant"}, {"engine": "Trace_Compile", "what": "; ".join(what), "variant": it["variant"], "source": it["source"], "name": it["name"],
+                                                    "spec": (m["spec"][0][:2] if m["spec"] else None), "impl": it["pickles"][:2]})
